@@ -4,6 +4,7 @@
 package c18ops
 
 import (
+	"sync"
 	"bytes"
 	"crypto/sha1"
 	"encoding/hex"
@@ -50,6 +51,8 @@ func New(kind string, variant int, nops int) Thread {
 		return newAlt(variant, nops)
 	case "asm":
 		return newAsm(variant, nops)
+	case "asmd":
+		return newAsmDerived(variant, nops)
 	case "rom":
 		return newROM(variant, nops)
 	case "fn":
@@ -450,6 +453,96 @@ func (t *asmT) Do(i int) string {
 func (t *asmT) State() string {
 	l1, ok1 := t.e.GetLabel(fmt.Sprintf("loop%d", t.v))
 	l2, ok2 := t.e.GetLabel(fmt.Sprintf("out%d", t.v))
+	return digest(t.e.Bytes(), t.e.PC(), t.e.Flags(), l1, ok1, l2, ok2)
+}
+
+// ---- asm.Emitter instances DERIVED from one source emitter (Clone / Append): each derived emitter is its
+// owner's object from then on. Instances come in pairs: the even variant builds the source, the odd one
+// that follows derives from the same source. The source carries dangling references to a label that is
+// still undefined (1, 3 and 5 of them: reference lists whose length is below their capacity).
+
+var (
+	derivedMu  sync.Mutex // harness bookkeeping only (pairs up the two constructors)
+	derivedSrc *asm.Emitter
+)
+
+func buildDerivedSource() *asm.Emitter {
+	s := asm.NewEmitter(make([]byte, 0x100), true)
+	s.SetBase(0x7E8000)
+	s.Comment("shared prologue")
+	s.SEP(0x20)
+	s.BNE("fwd1")
+	for i := 0; i < 3; i++ {
+		s.BEQ("fwd3")
+		s.JMP_abs("far3")
+	}
+	for i := 0; i < 5; i++ {
+		s.BRA("fwd5")
+		s.JMP_abs("far5")
+	}
+	s.NOP()
+	return s
+}
+
+type asmdT struct {
+	e *asm.Emitter
+	v int
+	n int
+}
+
+func newAsmDerived(v, n int) *asmdT {
+	derivedMu.Lock()
+	if v%2 == 0 || derivedSrc == nil {
+		derivedSrc = buildDerivedSource()
+	}
+	src := derivedSrc
+	derivedMu.Unlock()
+	t := &asmdT{v: v, n: n}
+	if v%2 == 0 {
+		t.e = src.Clone(make([]byte, 0x200))
+	} else {
+		t.e = asm.NewEmitter(make([]byte, 0x200), true)
+		t.e.SetBase(0x7E8000)
+		t.e.Append(src)
+	}
+	return t
+}
+func (t *asmdT) Kind() string { return "asmd" }
+func (t *asmdT) NumOps() int  { return t.n }
+func (t *asmdT) Do(i int) string {
+	return safely(func() string {
+		e := t.e
+		switch i % 3 {
+		case 0:
+			// one more reference to each inherited list, different per instance
+			for k := 0; k <= t.v%2; k++ {
+				e.LDA_imm8_b(uint8(0x10*t.v + k))
+			}
+			e.BNE("fwd1")
+			e.BEQ("fwd3")
+			e.BRA("fwd5")
+			e.JMP_abs("far3")
+			e.JMP_abs("far5")
+			return digest(e.Len(), e.PC())
+		case 1:
+			e.NOP()
+			for _, l := range []string{"fwd1", "fwd3", "fwd5", "far3", "far5"} {
+				e.Label(l)
+				e.NOP()
+			}
+			return digest(e.Len(), e.PC())
+		default:
+			err := e.Finalize()
+			var a, b bytes.Buffer
+			_ = e.WriteTextTo(&a)
+			_ = e.WriteHexTo(&b)
+			return digest(err, e.Bytes(), a.String(), b.String())
+		}
+	})
+}
+func (t *asmdT) State() string {
+	l1, ok1 := t.e.GetLabel("fwd1")
+	l2, ok2 := t.e.GetLabel("far5")
 	return digest(t.e.Bytes(), t.e.PC(), t.e.Flags(), l1, ok1, l2, ok2)
 }
 
